@@ -16,11 +16,14 @@ pub struct Case {
     pub args: Vec<String>,
     /// a witness map as JSON text, when one is known
     pub witness: Option<String>,
+    /// index of the corpus entry this one was derived from (its own index for originals):
+    /// members of one family are near-identical texts (same spans, same names, other constants)
+    pub family: usize,
 }
 
 impl Case {
     pub fn to_json(&self) -> serde_json::Value {
-        serde_json::json!({"id": self.id, "origin": self.origin, "text": &*self.text, "args": self.args, "witness": self.witness})
+        serde_json::json!({"id": self.id, "origin": self.origin, "text": &*self.text, "args": self.args, "witness": self.witness, "family": self.family})
     }
     pub fn from_json(v: &serde_json::Value) -> Option<Case> {
         Some(Case {
@@ -34,6 +37,7 @@ impl Case {
                 .filter_map(|a| a.as_str().map(|s| s.to_string()))
                 .collect(),
             witness: v.get("witness").and_then(|w| w.as_str()).map(|s| s.to_string()),
+            family: v.get("family").and_then(|f| f.as_u64()).unwrap_or(0) as usize,
         })
     }
 }
@@ -83,9 +87,22 @@ pub fn load_dir(dir: &Path, origin: &'static str, prefix: &str) -> Vec<Case> {
             text: Arc::from(text),
             args,
             witness,
+            family: usize::MAX,
         });
     }
     out
+}
+
+/// Sources of derived cases: deeply nested programs are not mutated (pest backtracks
+/// exponentially on a *failing* parse of a deep nest; that is an input-size question, not C19's).
+fn pick_source(rng: &mut Prng, cases: &[Case], n: usize) -> Case {
+    for _ in 0..16 {
+        let c = &cases[rng.below(n)];
+        if !c.id.contains("/deep_") {
+            return c.clone();
+        }
+    }
+    cases[0].clone()
 }
 
 pub struct CorpusSpec {
@@ -93,6 +110,7 @@ pub struct CorpusSpec {
     pub generated: usize,
     pub mutated: usize,
     pub layout: usize,
+    pub literal: usize,
 }
 
 pub fn build(spec: &CorpusSpec, repo: &Path, verif: &Path) -> Vec<Case> {
@@ -104,6 +122,34 @@ pub fn build(spec: &CorpusSpec, repo: &Path, verif: &Path) -> Vec<Case> {
         let mut rng = Prng::new(s);
         cases.push(crate::gen::program(&mut rng, &format!("gen/{i}")));
     }
+    for (i, c) in cases.iter_mut().enumerate() {
+        c.family = i; // originals: examples, hand-written corpus, generated
+        // a superset of the first argument map: the same arguments plus entries the program does
+        // not name, sorting before, between and after the real ones (see EXTRA_MARKER)
+        if let Some(sup) = superset_args(&c.args[0]) {
+            let at = c.args.len() - 1; // "{}" stays last
+            c.args.insert(at, sup);
+        }
+    }
+    // same-span literal variants: identical positions, one constant changed
+    {
+        let n = cases.len();
+        for i in 0..spec.literal {
+            let s = mix(spec.seed ^ tag("literal") ^ (i as u64));
+            let mut rng = Prng::new(s);
+            let src = pick_source(&mut rng, &cases, n);
+            if let Some(text) = crate::mutate::same_span_literal(&mut rng, &src.text) {
+                cases.push(Case {
+                    id: format!("lit/{i}<{}", src.id),
+                    origin: "literal",
+                    text: Arc::from(text),
+                    args: src.args.clone(),
+                    witness: src.witness.clone(),
+                    family: src.family,
+                });
+            }
+        }
+    }
     // padded copies: the same programs in files that cross typical buffer sizes (8 KiB, 64 KiB,
     // 1 MiB); they are cases of their own, so the golden run decides what they compile to
     {
@@ -112,7 +158,7 @@ pub fn build(spec: &CorpusSpec, repo: &Path, verif: &Path) -> Vec<Case> {
         for (k, size) in sizes.iter().enumerate() {
             let s = mix(spec.seed ^ tag("pad") ^ (k as u64));
             let mut rng = Prng::new(s);
-            let src = cases[rng.below(n)].clone();
+            let src = pick_source(&mut rng, &cases, n);
             let mut text = src.text.to_string();
             let style = rng.below(3);
             while text.len() < *size {
@@ -128,6 +174,7 @@ pub fn build(spec: &CorpusSpec, repo: &Path, verif: &Path) -> Vec<Case> {
                 text: Arc::from(text),
                 args: src.args.clone(),
                 witness: src.witness.clone(),
+                family: src.family,
             });
         }
     }
@@ -137,7 +184,7 @@ pub fn build(spec: &CorpusSpec, repo: &Path, verif: &Path) -> Vec<Case> {
         for i in 0..spec.layout {
             let s = mix(spec.seed ^ tag("layout") ^ (i as u64));
             let mut rng = Prng::new(s);
-            let src = cases[rng.below(n)].clone();
+            let src = pick_source(&mut rng, &cases, n);
             if src.text.len() > 100_000 {
                 continue;
             }
@@ -148,6 +195,7 @@ pub fn build(spec: &CorpusSpec, repo: &Path, verif: &Path) -> Vec<Case> {
                 text: Arc::from(text),
                 args: src.args.clone(),
                 witness: src.witness.clone(),
+                family: src.family,
             });
         }
     }
@@ -155,7 +203,7 @@ pub fn build(spec: &CorpusSpec, repo: &Path, verif: &Path) -> Vec<Case> {
     for i in 0..spec.mutated {
         let s = mix(spec.seed ^ tag("mut") ^ (i as u64));
         let mut rng = Prng::new(s);
-        let src = &cases[rng.below(pool)];
+        let src = &pick_source(&mut rng, &cases, pool);
         let text = crate::mutate::mutate(&mut rng, &src.text);
         cases.push(Case {
             id: format!("mut/{i}<{}", src.id),
@@ -163,8 +211,60 @@ pub fn build(spec: &CorpusSpec, repo: &Path, verif: &Path) -> Vec<Case> {
             text: Arc::from(text),
             args: src.args.clone(),
             witness: src.witness.clone(),
+            family: src.family,
         });
     }
     let _ = base;
     cases
+}
+
+
+/// Key that marks an argument map as "args[0] plus entries the program does not name".
+pub const EXTRA_MARKER: &str = "AA_EXTRA_0";
+
+fn superset_args(json: &str) -> Option<String> {
+    let v: serde_json::Value = serde_json::from_str(json).ok()?;
+    let obj = v.as_object()?;
+    if obj.is_empty() || obj.contains_key(EXTRA_MARKER) {
+        return None;
+    }
+    let keys: Vec<&String> = obj.keys().collect(); // sorted (serde_json map is ordered by key)
+    // an extra entry has the type of the real entry next to it and a different value of that type
+    // (one digit of the value text changed), so that a program that wrongly picks it up still
+    // type-checks but compiles to other bytes
+    let tweak = |e: &serde_json::Value| -> serde_json::Value {
+        let mut e = e.clone();
+        if let Some(v) = e.get("value").and_then(|v| v.as_str()).map(|s| s.to_string()) {
+            let mut rng = Prng::new(crate::digest::fnv1a(v.as_bytes()));
+            let nv = match v.as_str() {
+                "true" => Some("false".to_string()),
+                "false" => Some("true".to_string()),
+                _ => crate::mutate::same_span_literal(&mut rng, &v),
+            };
+            if let Some(nv) = nv {
+                e["value"] = serde_json::json!(nv);
+            }
+        }
+        e
+    };
+    let first = obj.get(keys[0])?.clone();
+    let second = obj.get(keys[1.min(keys.len() - 1)])?.clone();
+    let last = obj.get(keys[keys.len() - 1])?.clone();
+    let mut out = obj.clone();
+    out.insert(EXTRA_MARKER.to_string(), tweak(&first));
+    out.insert(format!("{}0", keys[0]), tweak(&second));
+    out.insert("zz_extra_9".to_string(), tweak(&last));
+    Some(serde_json::Value::Object(out).to_string())
+}
+
+impl Case {
+    /// (index of a superset argument map, index of the exact map it extends)
+    pub fn extra_pairs(&self) -> Vec<(usize, usize)> {
+        self.args
+            .iter()
+            .enumerate()
+            .filter(|(_, a)| a.contains(EXTRA_MARKER))
+            .map(|(i, _)| (i, 0))
+            .collect()
+    }
 }
